@@ -18,7 +18,8 @@ EXPLANATION = (
     " (R5) reused destination: every entry->Ok path of the eager VCF parser overwrites or clears each RecordBuf column (samples are reset element-wise: R11); (R6) append-buffer discipline for all VCF line readers."
     " (R7) UTF-8 validation per fill_buf window in the lazy record reader carries an incomplete trailing character over to the next window."
     " (R8) the VCF-text header sub-reader (vcf, bcf; sync and async) agrees with the majority of the ten copies of that state machine."
-    " (R10) the async VCF writer clears its line buffer before the inner writer fills it; (R11) element-wise reset: every per-sample value row of the reused Samples is cleared (loop, for_each(clear), whole clear, or a callee that resets on all success paths) before parse_values — which returns Ok untouched for a `.` column — fills it.")
+    " (R10) the async VCF writer clears its line buffer before the inner writer fills it; (R11) element-wise reset: every per-sample value row of the reused Samples is cleared (loop, for_each(clear), whole clear, or a callee that resets on all success paths) before parse_values — which returns Ok untouched for a `.` column — fills it."
+    " (R12) decode after split: no function splits (split / split_once / memchr) a value that derives from the result of percent_decode.")
 ASSUMPTIONS = ["percent-encoding crate encodes exactly the bytes in the AsciiSet (plus non-ASCII) and decodes %XX",
                "reader delimiter constants are the named DELIMITER/SEPARATOR consts of the reader modules (floor-checked)"]
 NOT_DECIDED = ["value equality over the VCF grammar (numbers, floats, genotype strings, header records)",
